@@ -22,45 +22,7 @@ tvars == <<st, l, nbad, ndiv>>
 
 ---------------------------------------------------------------------------
 (* Run a whole stabilise (the spec's step actions composed)                 *)
-RECURSIVE RunSteps(_)
-RunSteps(s) == IF Ok(s) /\ (s.chain # 0 \/ ~HeapEmpty(s)) THEN RunSteps(StabiliseStep(s)) ELSE s
-RECURSIVE RunHandlerSteps(_)
-RunHandlerSteps(s) == IF Ok(s) /\ s.runq # <<>> THEN RunHandlerSteps(StabiliseHandlersStep(s)) ELSE s
-\* state just before Finish (status = "handlers"), on which the round predicates are evaluated
-StabiliseToHandlers(s) == RunHandlerSteps(StabiliseEndA(RunSteps(StabiliseBegin(s))))
-
-Field(e, f, dflt) == IF f \in DOMAIN e THEN e[f] ELSE dflt
-
 \* the spec action for one recorded API action
-ApplyRaw(s, e) ==
-  CASE e.a = "var"      -> ApiVar(s, e.v)
-    [] e.a = "const"    -> ApiConst(s, e.v)
-    [] e.a = "map"      -> ApiMap(s, e.f, e["in"], Field(e, "eff", <<>>))
-    [] e.a = "map2"     -> ApiMap2(s, e.f, e["in"][1], e["in"][2])
-    [] e.a = "fold"     -> ApiFold(s, e.f, e.ins, e.init)
-    [] e.a = "mapref"   -> ApiMapRef(s, e.f, e["in"])
-    [] e.a = "mwo"      -> ApiMwo(s, e.f, e.mode, e["in"])
-    [] e.a = "zip"      -> LET s1 == ApiZip(s, e["in"][1], e["in"][2]) IN ApiMap(s1, "id", s1.n, <<>>)
-    [] e.a = "dependon" -> ApiDependOn(s, e["in"][1], e["in"][2])
-    [] e.a = "bind"     -> ApiBind(s, e["in"], e.recipe)
-    [] e.a = "memo_new" -> ApiMemoNew(s, e.f, e.over)
-    [] e.a = "xjoin"    -> ApiXJoin(s, e["in"])
-    [] e.a = "xsum"     -> ApiXSum(s, e.sel, e.ins)
-    [] e.a = "cutoff"   -> ApiSetCutoff(s, e.n, [c |-> e.c])
-    [] e.a = "write"    -> VarWrite(s, e.n, e.op, e.x)
-    [] e.a = "observe"  -> ApiObserve(s, e.n)
-    [] e.a = "observe_leaked" -> ApiObserve(s, s.leaked[e.i])
-    [] e.a = "obs_clone" -> ApiObsClone(s, e.o)
-    [] e.a = "obs_drop" -> ApiObsDrop(s, e.o)
-    [] e.a = "disallow" -> DisallowObs(s, e.o)
-    [] e.a = "subscribe" -> Subscribe(s, e.o, Field(e, "eff", <<>>))
-    [] e.a = "unsubscribe" -> Unsubscribe(s, e.o, Field(e, "to", e.o), e.t)
-    [] e.a = "state_unsubscribe" -> StateUnsubscribe(s, Field(e, "to", e.o), e.t)
-    [] e.a = "set_max_height" -> ApiSetMaxHeight(s, e.h)
-    [] e.a = "stabilise" -> StabiliseToHandlers(s)
-    [] e.a = "drop"     -> ApiDropHandle(s, e.n)
-    [] e.a = "drop_var" -> ApiDropVar(s, e.n)
-    [] OTHER -> s
 \* the harness keeps a handle to the node each constructor returns
 Apply(s0, e) ==
   LET s == ApiClearLogs(IF Ok(s0) THEN s0 ELSE Recover(s0)) IN
@@ -86,21 +48,24 @@ HasMemo(rc) == CASE rc.r = "memo" -> TRUE
                  [] rc.r \in {"junk", "leak"} -> HasMemo(rc.then)
                  [] rc.r = "bind" -> HasMemo(rc.inner)
                  [] OTHER -> FALSE
+ReadTag(post, o, r, w) ==
+  IF post.poisoned THEN "C13"
+  ELSE IF \E m \in ConeOf(post, {post.onode[o]}, {}) : post.def[m].k = "lhs" /\ HasMemo(post.def[m].recipe) THEN "C20"
+  ELSE IF \E m \in ConeOf(post, {post.onode[o]}, {}) : post.def[m].k = "expert" THEN "C14"
+  ELSE IF r[1] = "ok" /\ w[1] = "ok" THEN "C01"
+  ELSE IF (r[1] = "err" /\ r[2] = "ObservingInvalid") \/ (w[1] = "err" /\ w[2] = "ObservingInvalid") THEN "C03"
+  ELSE "C10"
 JudgeReads(post, obs) ==
-  {LET r == obs.reads[o]
-       w == RefReadS(post, o)
-   IN Viol(IF post.poisoned THEN "C13"
-           ELSE IF \E m \in ConeOf(post, {post.onode[o]}, {}) :
-                     post.def[m].k = "lhs" /\ HasMemo(post.def[m].recipe) THEN "C20"
-           ELSE IF \E m \in ConeOf(post, {post.onode[o]}, {}) : post.def[m].k = "expert" THEN "C14"
-           ELSE IF r[1] = "ok" /\ w[1] = "ok" THEN "C01"
-           ELSE IF r[2] = "ObservingInvalid" \/ w[2] = "ObservingInvalid" THEN "C03"
-           ELSE "C10",
-           <<"observer", o, "reads", r, "expected", w>>) :
-     o \in {x \in 1..Min(post.no, Len(obs.reads)) :
-              /\ obs.reads[x][1] # "gone"
-              /\ ~(post.ostate[x] = "inuse" /\ ~ExactCone(post, post.onode[x]))
-              /\ obs.reads[x] # RefReadS(post, x)}}
+  LET badObs == {x \in 1..Min(post.no, Len(obs.reads)) :
+                   /\ obs.reads[x][1] # "gone"
+                   /\ ~(post.ostate[x] = "inuse" /\ ~ExactCone(post, post.onode[x]))
+                   /\ obs.reads[x] # RefReadS(post, x)}
+  IN {Viol(ReadTag(post, o, obs.reads[o], RefReadS(post, o)),
+           <<"observer", o, "reads", obs.reads[o], "expected", RefReadS(post, o)>>) : o \in badObs}
+     \* a value before the observer's first stabilise / inside a stabilise is also C07's business
+     \cup {Viol("C07", <<"observer", o, "reads", obs.reads[o], "expected", RefReadS(post, o)>>) :
+            o \in {x \in badObs : LET w == RefReadS(post, x) IN
+                                   w[1] = "err" /\ w[2] \in {"NeverStabilised", "CurrentlyStabilising"}}}
 
 \* invocation log of the round against the reference (C02, C03, C05, C06)
 JudgeInv(pre, obs, coneB) ==
@@ -175,6 +140,7 @@ JudgeDlv(pre, obs) ==
      \cup {Viol("C09", <<"delivered value differs from observer read", obs.dlv[i]>>) :
             i \in {j \in 1..Len(obs.dlv) :
                      /\ obs.dlv[j].u # "Invalidated"
+                     /\ obs.dlv[j].rd[1] # "gone"
                      /\ obs.dlv[j].rd # <<"ok", obs.dlv[j].v>>}}
 
 \* Panics: none where the spec says ok (C04); where the spec says a misuse/limit panic is due,
@@ -235,7 +201,9 @@ SnapState(post, sn) ==
      !.status = sn.status, !.num = sn.num]
 
 JudgeAudit(post, obs) ==
-  IF obs.panic # "" \/ ~Ok(post) \/ obs.snap.status # "idle" THEN {} ELSE
+  \* (if the code created other nodes than the spec, ids no longer correspond: other judges report it)
+  IF obs.panic # "" \/ ~Ok(post) \/ obs.snap.status # "idle" \/ Len(obs.snap.valid) # post.n
+     \/ Len(obs.snap.ostate) # post.no THEN {} ELSE
   LET s == SnapState(post, obs.snap) IN
   {Viol("C11", <<"audit failed", p>>) : p \in AuditParts(s)}
 
